@@ -251,6 +251,8 @@ class C13(Prop):
             yield {"kind": "reuse", "seed": r.getrandbits(40), "n": r.randint(12, 24)}
         for _ in range(1 if tier == "quick" else 6):
             yield {"kind": "preempt", "seed": r.getrandbits(40), "max_points": 60 if tier == "quick" else 400}
+        if shard % 2 == 0 or tier != "quick":
+            yield {"kind": "preempt", "seed": r.getrandbits(40), "max_points": 40 if tier == "quick" else 400, "typography": True}
 
     def setup_worker(self, col, tier):
         self.mon = getattr(sys, "monitoring", None)
@@ -407,6 +409,13 @@ class C13(Prop):
         a = r.choice(rich)
         b = r.choice([j for j in rich if j is not a] or pool)
         b = [b[0], dict(a[1])] if r.random() < 0.5 else b  # same options half of the time (shared cache keys)
+        if case.get("typography"):
+            # both calls rewrite text (smart quotes, ellipses, cleanups): documents with dot runs and quotes in prose AND inside
+            # tags / comments, at different places in the two documents
+            ta = "Wait... {% note text=\"and so... on\" %} more... \"text\" {# later... maybe it's #} end... really.\n\n# **Bold... title**\n\nSo... <!-- x... \"y\" --> it's... fine... {{ v... }} done...\n"
+            tb = "{# first... it's #} Prose... \"here\" and... there... {{ x... }} and 'more'... text {% t a=\"b...\" %} tail...\n\n## __Other... title__\n"
+            oo = rand_opts(r, widths=[30, 88], force={"smartquotes": True, "ellipses": True, "cleanups": True, "plaintext": False})
+            a, b = ([ta, oo], [tb, dict(oo)]) if r.random() < 0.5 else ([tb, oo], [ta, dict(oo)])
         jobs = [[a], [b]]
         solo = [[(lambda x: x if isinstance(x, str) else "RAISED:" + x.text)(fm.fmt(t, **o)) for t, o in js] for js in jobs]
         mon = self.mon
@@ -425,6 +434,9 @@ class C13(Prop):
         run(None, rec)
         names = sorted(rec)
         r.shuffle(names)
+        if case.get("typography"):
+            # the text-rewriting functions first (whatever they are called), then everything else
+            names.sort(key=lambda q: not any(k in q.lower() for k in ("ellips", "quote", "replace", "rewrite", "smart", "cleanup", "unbold", "transform")))
         tried = 0
         for q in names[:case["max_points"]]:
             for occ in sorted({1, r.randint(1, rec[q])}):
